@@ -5,6 +5,7 @@ import copy
 import itertools
 
 from core import simcase as S
+from core import impl as I
 
 ID = "C01"
 LEAN_MODULES = ["AcnProofs.C01", "AcnProofs.Lemmas.EventCorePilots", "AcnProofs.Lemmas.EventCoreSimFail", "AcnProofs.Lemmas.EventCoreStep"]
@@ -33,13 +34,33 @@ TRUSTED = ["CPython heapq: heappop returns a <-minimal entry and keeps the rest 
 ASSUMPTIONS = ["Valid S R: distinct session ids, registered stations, 0 <= arrival < departure, sessions on one "
                "station pairwise non-overlapping (back-to-back allowed), recompute timestamps >= 0",
                "the scheduler parameter does not raise and only returns schedules the EVSEs accept "
-               "(otherwise run() aborts; the abort itself — class and period — is covered by the correspondence)"]
+               "(otherwise run() aborts; the abort itself — class and period — is covered by the correspondence)",
+               "every event is in the queue object the Simulator was constructed on before run() reaches its period "
+               "(at construction, added afterwards through any reference to that object, or between two run() calls); "
+               "an event handed over later is processed in the first period after it was added — compared with the "
+               "model (lean/AcnModel/SimAssemble.lean), not judged by the oracle",
+               "objects of a FINISHED simulation (queue, network, scheduler, EV objects after EV.reset()) may be used "
+               "for another one: the model of the second simulation is a run from the initial state, i.e. the claim "
+               "is that nothing of the first run survives in them (EV.reset() keeping the last charging rate and an "
+               "EVSE keeping its last pilot until its first period are masked where the object never takes part)"]
 RULE = ("scenario = 1-6 stations of mixed EVSE classes (with/without an aggregate constraint), 0-25 sessions laid "
         "out per station with gaps in {0,0,0,1,2,3} (half of all reuse back-to-back), arrivals from a small range, "
         "shuffled queue insertion order, 0-4 extra recompute events, period in {0.5,1,5,15}, max_recompute in "
         "{None,1,2,5}, scheduler in {scripted multi-period, empty, real algorithms (oracle only)}; 20% malformed "
         "(overlap, unknown station, departure<=arrival, invalid pilot, bad schedules, scheduler crash, min_rate>0); "
-        "thorough adds every layout with <=3 sessions on <=2 stations within horizon 5; "
+        "~55% of the valid scenarios (and 30% of the malformed ones) are ASSEMBLED differently from "
+        "Simulator(net, algo, EventQueue(all events)).run(): queue empty at construction and filled afterwards "
+        "through the caller's own reference or through sim.event_queue, part of the events at construction and the "
+        "rest later, 2-4 batches handed over between run() calls (time-closed so that it is the same simulation; one "
+        "variant hands an event over too late: model comparison only), run() called again on a finished simulator, "
+        "queue built by EventQueue(list) / add_events / add_event one by one in shuffled order, the queue deep-copied "
+        "before it is handed over, the constructed simulator deep-copied (copy and original both run and both judged); "
+        "~25% of the valid scenarios run on objects of an EARLIER, finished simulation on the same stations (same or "
+        "other sessions, longer or shorter): any non-empty subset of {the EventQueue instance, the network, the "
+        "scheduler, the EV objects after EV.reset()}; every simulation of a case is judged by the same oracle and "
+        "compared with its own model run; "
+        "thorough adds every layout with <=3 sessions on <=2 stations within horizon 5 (every 3rd of them fed to an "
+        "empty queue after construction, every 5th preceded by a simulation on the same queue object); "
         "non-trivial = valid layout with >=2 sessions and (back-to-back reuse or two events in one period); "
         "distinct by hash of the case")
 
@@ -96,6 +117,38 @@ def corpus():
                 "recomputes": [], "period": 1, "max_recompute": None, "noise": [], "malformed": "overlap", "sched": {"type": "empty"}})
     out.append({"stations": [_basic(0)], "constraint": None, "sessions": [_s("a", "S0", 0, 2), _s("b", "S9", 1, 3)],
                 "recomputes": [], "period": 1, "max_recompute": None, "noise": [], "malformed": "unknown_station", "sched": {"type": "empty"}})
+    # ---- the ways of putting the objects together (regressions for seeds C01-7 / C01-8 and their neighbours)
+    three = [_s("a", "S0", 1, 5), _s("b", "S0", 5, 9), _s("c", "S1", 3, 7)]
+
+    def base(**kw):
+        c = {"stations": [_basic(0), _basic(1)], "constraint": None, "sessions": copy.deepcopy(three), "recomputes": [2],
+             "period": 5, "max_recompute": 1, "noise": [], "sched": copy.deepcopy(const)}
+        c.update(kw)
+        return c
+    one = lambda add, via="caller", how="add_events": {"add": add, "via": via, "how": how}
+    # queue empty at construction, filled afterwards through the caller's reference / through sim.event_queue
+    out.append(base(assembly={"mode": "late_caller", "build": "list", "ctor": [], "stages": [one([0, 1, 2, 3])]}))
+    out.append(base(assembly={"mode": "late_sim", "build": "add_events", "ctor": [], "stages": [one([3, 2, 1, 0], "sim", "add_event")]}))
+    # part at construction, the rest before run(); run() once more on the finished simulator
+    out.append(base(assembly={"mode": "split", "build": "add_event", "ctor": [2, 0], "stages": [one([1, 3]), one([], "sim")]}))
+    # batches handed over between run() calls (a: 1-5 | c, b | a recompute), original and deep copy both run
+    out.append(base(sessions=[_s("a", "S0", 1, 5), _s("b", "S0", 6, 9), _s("c", "S1", 7, 8)], recomputes=[12],
+                    assembly={"mode": "batches", "build": "list", "ctor": [0], "copy": "sim",
+                              "stages": [one([]), one([2, 1], "sim"), one([3], "caller", "add_event")]}))
+    out.append(base(assembly={"mode": "built", "build": "add_event", "ctor": [3, 2, 1, 0], "copy": "queue", "stages": [one([])]}))
+    # ONE EventQueue instance for two simulations (the earlier one runs longer / shorter than the main one)
+    longer = [_s("p0", "S0", 0, 6), _s("p1", "S1", 4, 14), _s("p2", "S0", 6, 20)]
+    out.append(base(prior={"reuse": ["queue"], "sessions": longer, "recomputes": []}))
+    out.append(base(prior={"reuse": ["queue"], "sessions": [_s("p0", "S1", 0, 2)], "recomputes": [],
+                           "assembly": {"mode": "late_caller", "ctor": [], "stages": [one([0])]}},
+                    assembly={"mode": "late_caller", "build": "add_events", "ctor": [], "stages": [one([1, 0, 3, 2])]}))
+    # network, scheduler and EV objects (after EV.reset()) of a finished simulation used again; everything at once
+    out.append(base(prior={"reuse": ["network", "scheduler", "evs"], "recomputes": [11]}))
+    out.append(base(prior={"reuse": ["queue", "network", "scheduler", "evs"]},
+                    assembly={"mode": "split", "build": "add_events", "ctor": [1], "copy": "sim", "stages": [one([0, 2, 3], "sim")]}))
+    # outside the premise (model comparison only): session b is handed over after its arrival period has passed
+    out.append(base(sessions=[_s("a", "S0", 1, 5), _s("b", "S1", 2, 9)], recomputes=[],
+                    assembly={"mode": "late_batch", "build": "list", "ctor": [0], "stages": [one([]), one([1])]}))
     return out
 
 
@@ -110,10 +163,175 @@ def exhaustive():
             # insertion order: reversed for every second layout (heap layout differs)
             if sum(combo) % 2:
                 ss.reverse()
-            out.append({"stations": [_basic(0), _basic(1)], "constraint": None, "sessions": ss, "recomputes": [],
-                        "period": 5, "max_recompute": [None, 1, 2][len(out) % 3], "noise": [], "sched": sched,
-                        "exhaustive": True})
+            c = {"stations": [_basic(0), _basic(1)], "constraint": None, "sessions": ss, "recomputes": [],
+                 "period": 5, "max_recompute": [None, 1, 2][len(out) % 3], "noise": [], "sched": sched,
+                 "exhaustive": True}
+            k = len(out)
+            if k % 3 == 1:       # the queue is empty at construction; filled through the caller's reference / sim.event_queue
+                c["assembly"] = {"mode": "late_caller" if k % 2 else "late_sim", "build": "list", "ctor": [],
+                                 "stages": [{"add": list(range(n)), "via": "caller" if k % 2 else "sim",
+                                             "how": "add_events" if k % 4 < 2 else "add_event"}]}
+            if k % 5 == 2 and S.is_valid_layout(c):      # the same EventQueue instance served a simulation before
+                c["prior"] = {"reuse": ["queue"] if k % 2 else ["queue", "network", "scheduler"],
+                              "sessions": [_s("p0", "S1", k % 3, 3 + k % 4, req=50.0)], "recomputes": []}
+            out.append(c)
     return out
+
+
+def _ev_ts(case, i):
+    """(timestamp, last timestamp it entails) of event i of E(case)"""
+    ns = len(case["sessions"])
+    if i < ns:
+        x = case["sessions"][i]
+        return x["arrival"], x["departure"]
+    r = int(case["recomputes"][i - ns])
+    return r, r
+
+
+def time_batches(rng, case, k):
+    """Split E(case) into <= k batches such that run() on the batches so far ends before any later event is due
+    (then handing the next batch over between two run() calls is the same simulation)."""
+    left = list(range(n_events(case)))
+    out = []
+    while left and len(out) < k - 1:
+        tss = sorted({_ev_ts(case, i)[0] for i in left})
+        if len(tss) < 2:
+            break
+        cut = rng.choice(tss[1:])
+        cur = [i for i in left if _ev_ts(case, i)[0] < cut]
+        while True:
+            end = max(_ev_ts(case, i)[1] for i in cur) + 1          # iteration at which run() returns
+            more = [i for i in left if i not in cur and _ev_ts(case, i)[0] < end]
+            if not more:
+                break
+            cur += more
+        left = [i for i in left if i not in cur]
+        out.append(cur)
+    if left:
+        out.append(left)
+    return out
+
+
+def has_late_event(case):
+    """Is some event added to the queue only after run() has already simulated its period?  (valid layouts)"""
+    asm = assembly_of(case)
+    it = 0
+    for j, st in enumerate(asm["stages"]):
+        ix = (asm["ctor"] if j == 0 else []) + st["add"]
+        if any(_ev_ts(case, i)[0] < it for i in ix):
+            return True
+        if ix:
+            it = max(it, max(_ev_ts(case, i)[1] for i in ix) + 1)
+    return False
+
+
+ASSEMBLIES = ("late_caller", "late_caller", "late_sim", "split", "split", "batches", "batches", "rerun", "built",
+              "late_batch")
+
+
+def assemble(rng, case, mode=None):
+    """Attach one of the legitimate ways of putting queue and simulator together (see the comment above
+    `assembly_of`).  `case` must be a valid scenario whose run() does not raise."""
+    n = n_events(case)
+    ix = list(range(n))
+    mode = mode or rng.choice(ASSEMBLIES)
+    how = lambda: rng.choice(["add_events", "add_events", "add_event"])
+    via = lambda: rng.choice(["caller", "caller", "sim"])
+    a = {"build": rng.choice(["list", "list", "add_events", "add_event"]), "mode": mode}
+    if mode in ("late_caller", "late_sim"):
+        rng.shuffle(ix)
+        a["ctor"] = []
+        a["stages"] = [{"add": ix, "via": "caller" if mode == "late_caller" else "sim", "how": how()}]
+    elif mode == "split":
+        rng.shuffle(ix)
+        k = rng.randint(0, n)
+        a["ctor"] = ix[:k]
+        a["stages"] = [{"add": ix[k:], "via": via(), "how": how()}]
+    elif mode in ("batches", "late_batch"):
+        bs = time_batches(rng, case, rng.choice([2, 2, 3, 4]))
+        for b in bs:
+            rng.shuffle(b)
+        if mode == "late_batch" and len(bs) >= 2:
+            # outside the premise: one event of an earlier batch is handed over one batch too late
+            j = rng.randrange(len(bs) - 1)
+            e = bs[j].pop(rng.randrange(len(bs[j])))
+            bs[j + 1].insert(rng.randrange(len(bs[j + 1]) + 1), e)
+            if not bs[j]:
+                del bs[j]
+        k = rng.randint(0, len(bs[0])) if bs else 0
+        a["ctor"] = bs[0][:k] if bs else []
+        a["stages"] = [{"add": (b[k:] if j == 0 else b), "via": via(), "how": how()} for j, b in enumerate(bs)] or \
+                      [{"add": [], "via": "caller", "how": "add_events"}]
+    elif mode == "rerun":
+        rng.shuffle(ix)
+        a["ctor"] = ix
+        a["stages"] = [{"add": [], "via": "caller", "how": "add_events"} for _ in range(rng.choice([2, 2, 3]))]
+    else:   # "built": everything there at construction, put in one by one / as a list, in another order
+        rng.shuffle(ix)
+        a["build"] = rng.choice(["add_events", "add_event"])
+        a["ctor"] = ix
+        a["stages"] = [{"add": [], "via": "caller", "how": "add_events"}]
+    if rng.random() < 0.25 and mode != "late_batch":       # run() once more on the finished simulator: a no-op
+        a["stages"].append({"add": [], "via": via(), "how": "add_events"})
+    a["copy"] = rng.choice([None, None, None, None, None, "queue", "sim", "sim"])
+    case["assembly"] = a
+    return case
+
+
+def other_sessions(rng, case, tag="p"):
+    """Another valid layout on the stations of `case` (for the earlier simulation whose objects are re-used)."""
+    total = rng.choice([1, 2, 3, 5, 8])
+    cursor = {st["id"]: rng.randint(0, 6) for st in case["stations"]}
+    out = []
+    for k in range(total):
+        st = rng.choice(case["stations"])["id"]
+        arr = cursor[st] + (rng.choice([0, 0, 1, 2]) if any(s["station"] == st for s in out) else 0)
+        dep = arr + rng.choice([1, 2, 3, 5, 9, 14])
+        cursor[st] = dep
+        out.append({"session": f"{tag}{k}", "station": st, "arrival": arr, "departure": dep,
+                    "requested": round(rng.uniform(0.05, 12), 3), "batt": S.gen_battery(rng), "est": None})
+    rng.shuffle(out)
+    return out
+
+
+def add_prior(rng, case):
+    """An earlier simulation on the same stations, and which of its objects the main one uses again."""
+    objs = ["queue", "network", "scheduler", "evs"]
+    reuse = [o for o in objs if rng.random() < 0.45] or [rng.choice(objs)]
+    if rng.random() < 0.3:
+        reuse = ["queue"]
+    p = {"reuse": reuse}
+    if "evs" not in reuse and rng.random() < 0.7:
+        p["sessions"] = other_sessions(rng, case)
+        p["recomputes"] = [rng.randint(0, 12) for _ in range(rng.choice([0, 0, 1, 2]))]
+    elif "evs" in reuse and not case["sessions"]:
+        reuse.remove("evs")
+        if not reuse:
+            reuse.append("queue")
+    if p.get("sessions") is None and rng.random() < 0.5:
+        p["recomputes"] = list(case.get("recomputes", [])) + [max([s["departure"] for s in case["sessions"]] + [0]) + rng.randint(1, 6)]
+    if "scheduler" not in reuse and case["sched"]["type"] in ("empty", "scripted") and rng.random() < 0.5:
+        p["sched"] = {"type": "scripted", "default": S.gen_schedule(rng, case), "script": []}
+    p["noise"] = [round(rng.gauss(0, 1.0), 4) for _ in range(rng.randint(1, 4))] if rng.random() < 0.5 else None
+    pc = dict(case, sessions=p.get("sessions") or case["sessions"], recomputes=p["recomputes"] if p.get("recomputes") is not None else case.get("recomputes", []))
+    if rng.random() < 0.4:
+        p["assembly"] = assemble(rng, {"sessions": pc["sessions"], "recomputes": pc["recomputes"]},
+                                 mode=rng.choice(["late_caller", "split", "batches", "built"]))["assembly"]
+    case["prior"] = p
+    return case
+
+
+def vary(rng, case):
+    """~55 % of the valid scenarios are put together in another way than `Simulator(net, algo, EventQueue(all))`,
+    run() once; ~40 % of those (and some plain ones) run on objects a finished simulation has used before."""
+    r = rng.random()
+    if r < 0.45:
+        return case
+    if r < 0.9:
+        assemble(rng, case)
+    if r >= 0.75 or rng.random() < 0.3:
+        add_prior(rng, case)
+    return case
 
 
 def generate(rng, n, tier):
@@ -126,13 +344,18 @@ def generate(rng, n, tier):
             c = S.gen_case(rng, malformed=True)
             if c.get("malformed") == "sched_fail":
                 c["resume"] = True      # the scheduler crashes once; run() is called again
+            elif rng.random() < 0.3:
+                # the error class and period must not depend on how the queue was filled either
+                assemble(rng, c, mode=rng.choice(["late_caller", "late_sim", "split", "built"]))
+                c["assembly"]["copy"] = None
+                c["assembly"]["stages"] = c["assembly"]["stages"][:1]
             out.append(c)
         elif r == 9:
-            out.append(S.gen_case(rng, real_algos=True, max_sessions=12))
+            out.append(vary(rng, S.gen_case(rng, real_algos=True, max_sessions=12)))
         elif r == 6:
             out.append(S.gen_step_case(rng))
         else:
-            out.append(S.gen_case(rng))
+            out.append(vary(rng, S.gen_case(rng)))
     return out
 
 
@@ -143,23 +366,240 @@ def search(rng, n):
 # ------------------------------------------------------------------ implementation / model
 
 
+# ---- assembling the objects (case["assembly"], case["prior"])
+#
+# E(case) = the events of a scenario: the PluginEvent of every session (list order), then the RecomputeEvents.
+# case["assembly"] = {"build": "list" | "add_events" | "add_event",   how the constructor-time events get into the queue
+#                     "ctor": [indices into E],                        what the queue holds when Simulator(...) is called
+#                     "stages": [{"add": [indices], "via": "caller" | "sim", "how": "add_events" | "add_event"}, ...],
+#                                  per stage: add these events (through the caller's own reference to the queue, or
+#                                  through sim.event_queue), then call sim.run()
+#                     "copy": None | "queue" | "sim",   the queue is deep-copied before it is handed over / the
+#                                  constructed simulator is deep-copied: the copy runs first, then the original ("twin")
+#                     "mode": name of the generator branch (statistics only)}
+# An event that is added only after run() has passed its period (`has_late_event`) is outside C01's premise: such
+# cases are compared with the model but not judged by the oracle.
+# case["prior"] = {"reuse": [...of "queue","network","scheduler","evs"], "sessions"/"recomputes"/"sched"/"noise"/
+#                  "assembly": overrides (None / absent = as in the main scenario)}: an earlier simulation on the same
+#                  stations that ran to its end; the listed objects are then used again for the main one.
+
+
+def n_events(case):
+    return len(case["sessions"]) + len(case.get("recomputes", []))
+
+
+def assembly_of(case):
+    """Normalised assembly (every event exactly once; default: everything at construction, one run())."""
+    a = case.get("assembly") or {}
+    n = n_events(case)
+    seen = set()
+
+    def take(ix):
+        out = []
+        for i in ix or []:
+            if isinstance(i, int) and 0 <= i < n and i not in seen:
+                seen.add(i)
+                out.append(i)
+        return out
+    ctor = take(a.get("ctor"))
+    stages = [{"add": take(st.get("add")), "via": st.get("via", "caller"), "how": st.get("how", "add_events")}
+              for st in (a.get("stages") or [])]
+    rest = [i for i in range(n) if i not in seen]
+    if not stages:
+        stages = [{"add": [], "via": "caller", "how": "add_events"}]
+        if "ctor" in a:
+            stages[0]["add"] = rest
+        else:
+            ctor = ctor + rest
+    else:
+        stages[0]["add"] = stages[0]["add"] + rest
+    return {"build": a.get("build", "list"), "ctor": ctor, "stages": stages, "copy": a.get("copy")}
+
+
+def prior_case(case):
+    """The scenario of the earlier simulation whose objects are re-used (None if there is none)."""
+    p = case.get("prior")
+    if not p:
+        return None
+    c = {k: v for k, v in case.items() if k not in ("prior", "assembly", "resume", "steps")}
+    for k in ("sessions", "recomputes", "sched", "noise"):
+        if p.get(k) is not None:
+            c[k] = p[k]
+    if p.get("assembly"):
+        c["assembly"] = dict(p["assembly"], copy=None)
+    return c
+
+
+def _add(queue, events, how):
+    if how == "add_event":
+        for e in events:
+            queue.add_event(e)
+    else:
+        queue.add_events(events)
+
+
+def _simulate(case, shared=None, reuse=()):
+    """One simulation on the REAL objects, assembled as case["assembly"] says.  `shared` = the objects of an
+    earlier, finished simulation; those named in `reuse` are used again.  Returns (observation, objects)."""
+    asm = assembly_of(case)
+    shared = shared or {}
+    if "network" in reuse:
+        net = shared["network"]
+        net.occ_log = []                    # the harness's own recorder, not state of the network
+    else:
+        net = S.SnapshotNetwork()
+        for st in case["stations"]:
+            net.register_evse(I.make_evse(st["kind"], st["id"]), I.num(st["V"]), I.num(st.get("phase", 0)))
+        con = case.get("constraint")
+        if con:
+            net.add_constraint(S.Current([st["id"] for st in case["stations"]]), I.num(con["limit"]), name="agg")
+    if "scheduler" in reuse:
+        algo = shared["scheduler"]
+        algo.calls = []                     # harness recorder
+    else:
+        algo = S.make_scheduler(case)
+    if "evs" in reuse:
+        evs = shared["evs"]
+        for ev in evs:
+            ev.reset()                      # the public way to put an EV back to its initial state
+    else:
+        evs = [I.make_ev(s) for s in case["sessions"]]
+    E = [S.PluginEvent(ev.arrival, ev) for ev in evs] + [S.RecomputeEvent(int(r)) for r in case.get("recomputes", [])]
+    first = [E[i] for i in asm["ctor"]]
+    if "queue" in reuse:
+        q = shared["queue"]                 # the same EventQueue instance, emptied by the earlier run
+        _add(q, first, asm["build"])
+    elif asm["build"] == "list":
+        q = S.EventQueue(first)
+    else:
+        q = S.EventQueue()
+        _add(q, first, asm["build"])
+    if asm["copy"] == "queue":
+        q, evs, E = copy.deepcopy((q, evs, E))
+    sims = []
+    sim = S.Simulator(net, algo, q, S.START, period=I.num(case["period"]), verbose=False)
+    if asm["copy"] == "sim":                # the copy runs first, the original afterwards
+        sims.append(copy.deepcopy((sim, q, evs, E)))
+    sims.append((sim, q, evs, E))
+    out = []
+    for (sim, q, evs, E) in sims:
+        with S.noise_stream(case.get("noise", [])) as ns:
+            err = None
+            runs = 0
+            for st in asm["stages"]:
+                _add(q if st["via"] == "caller" else sim.event_queue, [E[i] for i in st["add"]], st["how"])
+                err = S.run_sim(sim)
+                runs += 1
+                if err is not None:
+                    break
+            ctx = {"network": sim.network, "scheduler": sim.scheduler, "evs": evs}
+            obs = S.observe(sim, ctx, err)
+            obs["noise_draws"] = ns["k"]
+            obs["runs"] = runs
+            obs["queue_shared"] = sim.event_queue is q
+            obs["caller_pending"] = len(q)
+            out.append(obs)
+    obs = out[0]
+    if len(out) > 1:
+        obs["twin"] = out[1]
+    sim, q, evs, E = sims[-1]
+    return obs, {"network": sim.network, "scheduler": sim.scheduler, "evs": evs, "queue": q}
+
+
+def run_impl_assembled(case):
+    pc = prior_case(case)
+    if pc is None:
+        return _simulate(case)[0]
+    pobs, objs = _simulate(pc)
+    if pobs["err"] is not None:             # the earlier simulation did not finish: its objects are not re-used
+        obs = dict(pobs)
+        obs["main_skipped"] = True
+        obs["prior"] = pobs
+        return obs
+    obs, _ = _simulate(case, objs, tuple(case["prior"].get("reuse", [])))
+    obs["prior"] = pobs
+    return obs
+
+
 def run_impl(case):
     if "steps" in case:             # driven through Simulator.step() instead of run()
         return S.run_impl_steps(case)
     if case.get("resume"):          # crash/resume: run() is called again after it raised
         return S.run_impl_resume(case)
+    if case.get("assembly") or case.get("prior"):
+        return run_impl_assembled(case)
     return S.run_impl(case)
+
+
+def _wire_events(case, ix):
+    ns = len(case["sessions"])
+    out = []
+    for i in ix:
+        if i < ns:
+            s = case["sessions"][i]
+            out.append([int(s["arrival"]), "Plugin", s["session"]])
+        else:
+            out.append([int(case["recomputes"][i - ns]), "Recompute", f"r{i - ns}"])
+    return out
+
+
+def _request_one(case):
+    req = S.model_request(case, queue="heap")
+    if req is not None and case.get("assembly"):
+        asm = assembly_of(case)
+        req["assembly"] = {"ctor": _wire_events(case, asm["ctor"]),
+                           "stages": [_wire_events(case, st["add"]) for st in asm["stages"]]}
+    return req
 
 
 def model_request(case):
     # the model runs over the transcription of CPython's array heap: exact tie order
     if "steps" in case:
         return S.model_request(case)
-    return S.model_request(case, resume=bool(case.get("resume")), queue="heap")
+    if case.get("resume"):
+        return S.model_request(case, resume=True, queue="heap")
+    req = _request_one(case)
+    pc = prior_case(case)
+    if req is not None and pc is not None:
+        req["prior"] = _request_one(pc)
+    return req
+
+
+def _fresh_eyes(case, obs, model):
+    """What the model cannot know about RE-USED objects and no property constrains: EV.reset() keeps the last
+    charging rate of an EV (ev.py:146-153), and an EVSE keeps its last pilot until the first period of the new
+    run.  Both are overwritten as soon as the object takes part in the new simulation; for objects that never do
+    (a run that simulates no period; an EV the model never charges: rate and delivered energy exactly 0) the stale
+    value is masked."""
+    reuse = (case.get("prior") or {}).get("reuse", [])
+    if not reuse:
+        return obs
+    o = dict(obs)
+    if "network" in reuse and o["iter"] == 0:
+        o["evse_pilot"] = [0.0] * len(o["evse_pilot"])
+    if "evs" in reuse:
+        idle = {e["session"] for e in S.decode_model(model)["evs"] if e["rate"] == 0.0 and e["delivered"] == 0.0}
+        o["evs"] = [dict(e, rate=0.0) if e["session"] in idle else e for e in o["evs"]]
+    return o
 
 
 def compare(case, obs, model):
-    return S.compare(case, obs, model, exact_ties="steps" not in case)
+    if "steps" in case:
+        return S.compare(case, obs, model, exact_ties=False)
+    diffs = []
+    pc = prior_case(case)
+    if pc is not None:
+        if "prior" not in model:
+            diffs.append("the model did not answer the prior simulation")
+        else:
+            diffs += ["earlier simulation: " + d for d in S.compare(pc, obs["prior"], model["prior"], exact_ties=True)]
+        if obs.get("main_skipped"):
+            return diffs[:12]
+    diffs += S.compare(case, _fresh_eyes(case, obs, model), model, exact_ties=True)
+    if "twin" in obs:
+        diffs += ["original simulator (run after its deep copy): " + d
+                  for d in S.compare(case, _fresh_eyes(case, obs["twin"], model), model, exact_ties=True)]
+    return diffs[:12]
 
 
 # ------------------------------------------------------------------ oracle: C01 stated on the implementation
@@ -174,12 +614,34 @@ PREMISE_ERRORS = ("InvalidRate", "InvalidSchedule", "SchedulerFailed")
 def in_scope(case):
     if "steps" in case:
         return False                 # C01 is about run(); step() is tied by correspondence only
+    if case.get("assembly") and S.is_valid_layout(case) and has_late_event(case):
+        return False                 # an event handed over after its period has passed: outside the premise
     if case.get("malformed") == "sched_fail" and case.get("resume"):
         return S.is_valid_layout(case)
     return S.is_valid_layout(case) and case.get("malformed") not in SCHED_FAULTS
 
 
 def oracle(case, obs):
+    """Every simulation of the case (an earlier one whose objects are re-used, the main one, the original of a
+    deep-copied simulator) is judged by the same predicate."""
+    fails = []
+    pc = prior_case(case)
+    if pc is not None and "prior" in obs:
+        fails += [{"kind": f["kind"], "detail": "earlier simulation (its objects are re-used afterwards): " + f["detail"]}
+                  for f in oracle_one(pc, obs["prior"])]
+        if obs.get("main_skipped"):
+            return fails
+    what = ""
+    if pc is not None:
+        what = "simulation re-using the " + "/".join(case["prior"].get("reuse", [])) + " object(s) of a finished one: "
+    fails += [{"kind": f["kind"], "detail": what + f["detail"]} for f in oracle_one(case, obs)]
+    if "twin" in obs:
+        fails += [{"kind": f["kind"], "detail": what + "original simulator, run after its deep copy: " + f["detail"]}
+                  for f in oracle_one(case, obs["twin"])]
+    return fails
+
+
+def oracle_one(case, obs):
     if not in_scope(case):
         return []
     fails = []
@@ -208,6 +670,9 @@ def oracle(case, obs):
     expect_iter = (max(ts) + 1) if ts else 0
     if not obs["queue_empty"]:
         fails.append({"kind": "queue_not_empty", "detail": f"pending after run(): {obs['pending']}"})
+    if obs.get("caller_pending"):
+        fails.append({"kind": "queue_not_empty", "detail": f"the EventQueue object handed to the constructor still holds "
+                      f"{obs['caller_pending']} event(s) after run() (sim.event_queue is that object: {obs.get('queue_shared')})"})
     if obs["iter"] != expect_iter:
         fails.append({"kind": "final_iteration", "detail": f"iteration {obs['iter']} expected {expect_iter}"})
     if any(x is not None for x in obs["occ_final"]):
@@ -269,6 +734,24 @@ def features(case, obs):
          f"constraint={'yes' if case.get('constraint') else 'no'}"]
     if case.get("exhaustive"):
         f.append("exhaustive_small_scope")
+    if case.get("assembly"):
+        asm = assembly_of(case)
+        f.append(f"assembly={case['assembly'].get('mode', 'custom')}")
+        f.append(f"queue_at_construction={'empty' if not asm['ctor'] else 'all' if len(asm['ctor']) == n_events(case) else 'part'}")
+        f.append(f"run_calls={min(len(asm['stages']), 4)}")
+        f.append(f"deepcopy={asm['copy']}")
+        f.append("added_via=" + "+".join(sorted({st['via'] for st in asm['stages'] if st['add']})))
+        f.append("added_by=" + "+".join(sorted({st['how'] for st in asm['stages'] if st['add']} | ({asm['build']} if asm['ctor'] else set()))))
+        if S.is_valid_layout(case) and has_late_event(case):
+            f.append("late_event(out_of_scope)")
+    else:
+        f.append("assembly=ctor_all_run_once")
+    if case.get("prior"):
+        p = case["prior"]
+        f.append("reused=" + "+".join(sorted(p.get("reuse", []))))
+        f.append("earlier_simulation=" + ("other_sessions" if p.get("sessions") is not None else "same_sessions"))
+        if obs.get("main_skipped"):
+            f.append("earlier_simulation_raised")
     if in_scope(case) and obs.get("err") in PREMISE_ERRORS:
         f.append("oracle_abstained_premise")
     kinds = sorted({st["kind"]["t"] for st in case["stations"]})
@@ -280,8 +763,23 @@ def features(case, obs):
     return f
 
 
+def _drop_event(case, key, i):
+    """case without sessions[i] / recomputes[i]; the assembly's indices into E(case) follow"""
+    c2 = copy.deepcopy(case)
+    k = i if key == "sessions" else len(case["sessions"]) + i
+    del c2[key][i]
+    a = c2.get("assembly")
+    if a:
+        fix = lambda ix: [j - (j > k) for j in ix if j != k]
+        a["ctor"] = fix(a.get("ctor", []))
+        for st in a.get("stages", []):
+            st["add"] = fix(st.get("add", []))
+    return c2
+
+
 def shrink(case, kind):
-    """Greedy: drop sessions / recomputes / script entries while the same failure kind persists."""
+    """Greedy: drop the earlier simulation / the deep copy / sessions / recomputes / script entries while the same
+    failure kind persists."""
     def bad(c):
         try:
             return any(f["kind"] == kind for f in oracle(c, run_impl(c)))
@@ -290,16 +788,37 @@ def shrink(case, kind):
     if not bad(case):
         return case
     cur = copy.deepcopy(case)
+    for simpler in (lambda c: c.pop("prior", None), lambda c: c.pop("assembly", None),
+                    lambda c: c.get("assembly", {}).update(copy=None),
+                    lambda c: c.get("prior", {}).pop("assembly", None),
+                    lambda c: c.get("prior", {}).pop("sched", None),
+                    lambda c: c.get("prior", {}).update(reuse=c["prior"]["reuse"][:1]) if c.get("prior") else None,
+                    lambda c: c.get("prior", {}).update(reuse=c["prior"]["reuse"][-1:]) if c.get("prior") else None):
+        c2 = copy.deepcopy(cur)
+        simpler(c2)
+        if c2 != cur and bad(c2):
+            cur = c2
     changed = True
     while changed:
         changed = False
         for key in ("sessions", "recomputes"):
             i = 0
             while i < len(cur.get(key, [])):
-                c2 = copy.deepcopy(cur)
-                del c2[key][i]
+                c2 = _drop_event(cur, key, i)
                 if bad(c2):
                     cur = c2
+                    changed = True
+                else:
+                    i += 1
+        pr = cur.get("prior") or {}
+        for key in ("sessions", "recomputes"):
+            i = 0
+            while i < len(pr.get(key) or []) and not (key == "sessions" and len(pr[key]) <= 1):
+                c2 = copy.deepcopy(cur)
+                del c2["prior"][key][i]
+                if bad(c2):
+                    cur = c2
+                    pr = cur["prior"]
                     changed = True
                 else:
                     i += 1
